@@ -24,7 +24,8 @@ CLAUSES = {
 }
 HOOKS_REQUIRED = ["operator/logbook events", "evolve calls", "later replicates after in-place mutation",
                   "anchor entered: RecurrentSelectionBreedingProgram.reset", "anchor entered: RecurrentSelectionBreedingProgram.advance",
-                  "anchor entered: RecurrentSelectionBreedingProgram.evolve", "anchor entered: RecurrentSelectionBreedingProgram.initialize"]
+                  "anchor entered: RecurrentSelectionBreedingProgram.evolve", "anchor entered: RecurrentSelectionBreedingProgram.initialize",
+                  "cases with a manual history before evolve()"]
 RULE = ("one case = one programme built from a seeded initial state (classes: empty, scalars, nested lists/dicts/sets, "
         "numpy arrays incl. views/object arrays/NaN, plain objects, cross-container aliasing and cycles, non-string keys, "
         "real pybrops matrices), initialised through the constructor, the setters, the initop inside evolve() or an explicit "
@@ -32,7 +33,10 @@ RULE = ("one case = one programme built from a seeded initial state (classes: em
         "overwrite arrays) / return deep copies (optionally trashing the inputs) / return new dicts sharing nested objects / "
         "mixed per call incl. permuted or aliased returns and late mutation of containers of earlier replicates; logbook "
         "passive or mutating; nrep 0-6 (thorough: up to 10), ngen 0-8 (thorough: up to 25), loginit default/True/False; "
-        "scenarios: evolve, evolve twice, evolve then advance, operator raising mid-run then evolve again, reset()+advance(). "
+        "scenarios: evolve, evolve twice, evolve then advance, operator raising mid-run then evolve again, reset()+advance(); "
+        "about a third of the cases first get a manual history on the live programme (reset(), reset()+advance(), start_* "
+        "re-assigned to new objects or edited in place, initialize() again with a new initop state, working containers edited "
+        "in place or re-assigned, t_cur set by hand) and every later replicate is judged against the CURRENT stored initial state. "
         "Non-trivial: nrep >= 1; distinct = digest of all run parameters and of the initial state.")
 ASSUME = ["the time index is 0 at the initial evaluation of a replicate and g in generation g (1-based), i.e. it grows by one per cycle",
           "'the state returned by its predecessor' is decided by value (deep digest of the five containers at hand-over == digest "
@@ -42,6 +46,8 @@ ASSUME = ["the time index is 0 at the initial evaluation of a replicate and g in
           "a mutable object reachable both from a replicate's first state and from the stored initial state (or an earlier replicate's "
           "state) contradicts independence, because the property quantifies over operators that mutate what they receive",
           "reset() followed by advance() (without evolve) is read as a replicate whose first cycle has time index 0",
+          "'the initial one' is the initial state stored in the programme when evolve() is called: after the caller re-assigns or edits "
+          "start_* or calls initialize() again, that newer state is the reference (the oracle follows only changes the harness made itself)",
           "an operator that raises aborts evolve(); only the stored initial state and the next evolve() are judged afterwards"]
 TIMEOUT = {"quick": 900, "thorough": 3 * 3600}
 
@@ -91,6 +97,7 @@ class Monitor(object):
         self.nev = 0
         self.raise_at = None
         self.inplace_done = False   # some in-place mutation happened in an earlier replicate
+        self.hist = ""              # "/after manual ..." once the caller worked on the programme by hand before evolve()
         self.inplace_now = False
 
     # ---- expectations -------------------------------------------------------------------------------
@@ -192,14 +199,14 @@ class Monitor(object):
         ssink = self.check_start()
         cur = set(self.current)
         sh = [type(self.current[i]).__name__ for i in cur & set(ssink)]
-        ctx.check("C20.fresh.noalias", not sh, SITE + "reset", "a replicate's first state shares no mutable object with the stored initial state", "any operators",
+        ctx.check("C20.fresh.noalias", not sh, SITE + "reset", "a replicate's first state shares no mutable object with the stored initial state", "any operators" + self.hist,
                   witness=self.witness(shared_object_types=sorted(set(sh)), n_shared=len(sh), replicate=exp.r), coords=self.coords)
         sh = [type(self.current[i]).__name__ for i in cur & set(self.earlier)]
-        ctx.check("C20.fresh.noalias", not sh, SITE + "reset", "a replicate's first state shares no mutable object with an earlier replicate's state", "any operators",
+        ctx.check("C20.fresh.noalias", not sh, SITE + "reset", "a replicate's first state shares no mutable object with an earlier replicate's state", "any operators" + self.hist,
                   witness=self.witness(shared_object_types=sorted(set(sh)), n_shared=len(sh), replicate=exp.r), coords=self.coords)
 
     def mutcls(self):
-        return "after in-place mutation by operators" if (self.inplace_done or self.inplace_now) else "no in-place mutation so far"
+        return ("after in-place mutation by operators" if (self.inplace_done or self.inplace_now) else "no in-place mutation so far") + self.hist
 
     def check_start(self, extra=None):
         bp = self.bp
@@ -465,8 +472,94 @@ def _evolve(ctx, mon, bp, lb, nrep, ngen, loginit, verbose, injected):
     return True
 
 
+PRELUDE = ["reset", "reset+advance", "assign start_* (new objects)", "assign one start_* (new object)", "edit start_* in place",
+           "initialize() again", "edit working containers in place", "assign a working container", "set t_cur"]
+HIST = "/after manual reset(), start_* reassignment or initialize() calls"
+
+
+def _plan(gp):
+    """Manual history applied to the live programme before the scenario proper (about a third of the cases)."""
+    if gp.random() >= 0.36:
+        return []
+    plan = ["reset"] if gp.random() < 0.6 else []
+    for _ in range(int(gp.integers(1, 4))):
+        plan.append(PRELUDE[int(gp.integers(0, len(PRELUDE)))])
+    return plan
+
+
+def _set_initial(mon, S):
+    """The harness itself installs a new initial state: the oracle's reference moves with it."""
+    mon.S0, mon.S0brief = O.dgs(S), [O.brief(x) for x in S]
+
+
+def _prelude(ctx, mon, bp, lb, initop, gp, plan):
+    """Returns False when the case has to stop (the programme raised)."""
+    names = ("start_genome", "start_geno", "start_pheno", "start_bval", "start_gmod")
+    n = 0
+    for act in plan:
+        n += 1
+        ctx.sumnote("manual history: " + act)
+        try:
+            if act in ("reset", "reset+advance", "edit start_* in place", "edit working containers in place", "assign a working container") \
+                    and not bp.is_initialized():
+                bp.initialize()     # the initop delivers the state the oracle already knows
+            if act == "reset":
+                bp.reset()
+            elif act == "reset+advance":
+                k = int(gp.integers(1, 3))
+                mon.lbook = lb
+                mon.expect_advance(k, 0, lb.rep, True)
+                ctx.hook("direct reset()+advance() calls")
+                bp.reset()
+                bp.advance(k, lb)
+                mon.end_call("advance", lb.rep, "reset()+advance()")
+            elif act == "assign start_* (new objects)":
+                S = O.gen_state(gp, O.STATE_CLASSES[int(gp.integers(1, len(O.STATE_CLASSES)))])
+                S[int(gp.integers(5))][("installed", n)] = [n]
+                _set_initial(mon, S)
+                bp.start_genome, bp.start_geno, bp.start_pheno, bp.start_bval, bp.start_gmod = S
+            elif act == "assign one start_* (new object)":
+                if not bp.is_initialized():
+                    continue
+                i = int(gp.integers(5))
+                new = {("installed", n): [n, float(gp.random())], "arr": gp.integers(0, 3, 4)}
+                mon.S0[i], mon.S0brief[i] = O.dg(new), O.brief(new)
+                setattr(bp, names[i], new)
+            elif act == "edit start_* in place":
+                mon.check_start("before a manual edit")     # never re-base over an unnoticed change
+                for _ in range(int(gp.integers(1, 3))):
+                    O.mutate(gp, getattr(bp, names[int(gp.integers(5))]), ("manual-start", n))
+                _set_initial(mon, [getattr(bp, x) for x in names])
+            elif act == "initialize() again":
+                S = O.gen_state(gp, O.STATE_CLASSES[int(gp.integers(1, len(O.STATE_CLASSES)))])
+                S[int(gp.integers(5))][("re-initialised", n)] = [n]
+                initop.state = S
+                _set_initial(mon, S)
+                bp.initialize()
+            elif act == "edit working containers in place":
+                if not all(hasattr(bp, "_" + x) for x in O.NAMES):    # no reset() yet: there are no working containers
+                    continue
+                work = [bp.genome, bp.geno, bp.pheno, bp.bval, bp.gmod]
+                for _ in range(int(gp.integers(1, 3))):
+                    O.mutate(gp, work[int(gp.integers(5))], ("manual-work", n))
+                work[int(gp.integers(5))][("manual-work", n, "mark")] = n
+            elif act == "assign a working container":
+                setattr(bp, O.NAMES[int(gp.integers(5))], {("manual-assign", n): [n]})
+            elif act == "set t_cur":
+                bp.t_cur = int(gp.integers(0, 9))
+        except Exception as e:
+            ctx.raised("manual call before evolve: " + act, e)
+            ctx.ok("C20.evolve.returns")
+            ctx.violation("C20.evolve.returns", SITE + ("advance" if act == "reset+advance" else "reset"), "raised %s" % type(e).__name__,
+                          "manual call before evolve", what="%s raised %s: %s" % (act, type(e).__name__, str(e)[:160]),
+                          witness=mon.witness(traceback=traceback.format_exc()[-1500:]), coords=mon.coords)
+            return False
+    return True
+
+
 def one_case(ctx, c):
     g = ctx.rng("run", c)
+    plan = _plan(ctx.rng("prelude", c))
     beh = BEHS[int(g.integers(0, 5))] if g.random() < 0.8 else "inplace"
     init = INITS[int(g.integers(0, 4))]
     scls = O.STATE_CLASSES[int(g.integers(0, len(O.STATE_CLASSES)))]
@@ -479,9 +572,9 @@ def one_case(ctx, c):
     S = O.gen_state(g, scls)
     S0 = O.dgs(S)
     params = {"case": c, "operators": beh, "init": init, "state_class": scls, "scenario": scen, "nrep": nrep, "ngen": ngen,
-              "loginit": loginit, "logbook_mutates": log_mutates, "t_max": t_max}
+              "loginit": loginit, "logbook_mutates": log_mutates, "t_max": t_max, "manual_history_before": plan}
     coords = [c, "run"]
-    ctx.case("%s/%s/%s" % (beh, init, scen), scls, nrep, ngen, loginit, log_mutates, t_max, S0, trivial=(nrep == 0))
+    ctx.case("%s/%s/%s" % (beh, init, scen), scls, nrep, ngen, loginit, log_mutates, t_max, S0, plan, trivial=(nrep == 0))
     ctx.sumnote("initial-state class: " + scls)
     if c % 97 == 0:
         ctx.sample(dict(params, initial_state=[O.brief(s, 300) for s in S]))
@@ -507,6 +600,11 @@ def one_case(ctx, c):
         return
     mon.bp = bp
     lb = HLog(h, rep=int(g.integers(0, 4)) if g.random() < 0.3 else 0)
+    if plan:
+        mon.hist = HIST
+        ctx.hook("cases with a manual history before evolve()")
+        if not _prelude(ctx, mon, bp, lb, initop, ctx.rng("prelude-run", c), plan):
+            return
 
     if scen == "reset+advance":
         mon.lbook = lb
